@@ -5,6 +5,7 @@
   `Pyab/Proofs/Lines.lean` and `Pyab/Proofs/Routing.lean`.
 -/
 import Pyab.Properties.C02
+import Pyab.Properties.EvaluatorPremise
 import Pyab.Proofs.Lines
 namespace Pyab.Properties
 open Pyab Pyab.Spec
